@@ -22,7 +22,9 @@ void h_rfl_step(void)
 {
   /* ghost keys and witness indices: arbitrary (globals are zero in a plain harness) */
   IORA_TRUE = 1; G = (struct iora_udp_ghost){0};      /* ghost records start empty (plain proofs run with --nondet-static) */
-  GPK = nondet_u64(); GSID = nondet_u64(); GB = nondet_size_t(); GK = nondet_size_t();
+  /* the witness peer: an arbitrary (numeric host text, port) - or the empty key.  Its key is the injective pairing that unit udp_key justifies (shims/iora_udp.h) */
+  const uint64_t GH = nondet_u64(); const uint16_t GP = (uint16_t)nondet_u64(); __CPROVER_assume(GH >= 1 && GH < ((uint64_t)1 << 48));
+  GPK = nondet_bool() ? 0 : IORA_KEY_PAIR(GH, GP); GSID = nondet_u64(); GB = nondet_size_t(); GK = nondet_size_t();
   __CPROVER_assume(GB < sizeof(sockaddr_storage));
   /* arbitrary engine state */
   UdpEngine E; Listener L; Session WS, OS;          /* uninitialised locals are nondeterministic */
@@ -101,6 +103,9 @@ void h_rfl_step(void)
     }
     if (!hit) {
       __CPROVER_assert(E._peerIndex.has == has0 && E._peerIndex.val == val0, "R9 a datagram from another peer never changes this peer's index entry (no redirect)");
+    }
+    if (GPK != 0 && G.rc.key != 0) {
+      __CPROVER_assert(hit == (G.rc.key_host == GH && G.rc.key_port == GP), "R9b per-peer identity: a datagram is routed through this peer's entry iff its (numeric host, port) are this peer's (key = host:port is injective, unit udp_key)");
     }
     __CPROVER_assert(G.rx.errorCb_calls == 0, "R10 no error event for a good datagram");
   } else if (n == 0) {
